@@ -25,6 +25,9 @@ def run_job(job, w):
     from rt import harness, repeating
     harness.setup_process(job["K"])
     for sc in job["scenarios"]:
+        if "wf" in sc:
+            run_controller_scenario(sc, w, job)
+            continue
         loc = vlib.mkscratch("c13")
         try:
             r = repeating.run_direct(sc, loc, watchdog_s=job.get("watchdog_s", 60.0))
@@ -54,6 +57,37 @@ def run_job(job, w):
             w.sample({"scenario": sc, "verdict": r["verdict"], "events": slim[:40]})
 
 
+def run_controller_scenario(sc, w, job):
+    """Second slice: producers + observers through the real Controller / ComponentState notification path."""
+    from rt import harness, repeating, wfgen
+    wf, script = sc["wf"], sc["script"]
+    nodes = wfgen.expand(wf)
+    loc = vlib.mkscratch("c13c")
+    try:
+        r = harness.run_scenario(wfgen.to_flowir(wf), script, loc, perturb_seed=sc["pseed"], jitter_p=sc["jitter_p"],
+                                 jitter_max=0.02, storm=sc["storm"], watchdog_s=job.get("watchdog_s", 90.0))
+    finally:
+        shutil.rmtree(loc, ignore_errors=True)
+    w.evaluated()
+    w.count("ctl_runs")
+    if r["build_error"]:
+        w.count("build_errors")
+        w.note_inconclusive("controller-slice workflow did not load: %s" % r["build_error"])
+        return
+    viol, cnt = repeating.judge_controller(nodes, r)
+    for k, v in cnt.items():
+        w.count(k, v)
+    ev = r["events"]
+    w.distinct("ctl-" + harness.signature(ev, kinds=("launch", "exit", "notify_all_producers_finished", "engine.kill")))
+    for v in viol:
+        w.violation("controller-slice %s %s" % (v["clause"], {k: v[k] for k in v if k != "clause"}),
+                    {"scenario": sc, "violation": v,
+                     "trace": [{k: e[k] for k in e if k not in ("thread", "preds", "graph_preds")} for e in ev
+                               if e["kind"] in ("launch", "exit", "output", "notify_all_producers_finished",
+                                                "engine.kill", "cs.finish", "kernel.enter")][:200]},
+                    finding_key=classify(v, sc))
+
+
 def classify(v, sc):
     return None
 
@@ -73,8 +107,11 @@ def gen_scenario(rng):
         "obs_script": [{"reason": rng.choice(reasons), "duration": rng.choice([0.5, 1.0, 2.0, 4.0])} for _ in range(n_exec)],
         "obs_tail": {"reason": rng.choice(["Success", "Success", "Success", "KnownIssue"]), "duration": rng.choice([0.5, 1.0, 3.0])},
     }
-    fo = rng.choice(["at", "at", "point"])
-    if fo == "at":
+    fo = rng.choice(["at", "at", "point", "initial"])
+    if fo == "initial":
+        # output that already exists when the observer starts (e.g. producers of an earlier stage, restarts)
+        sc["first_output"] = "initial"
+    elif fo == "at":
         # producers write their first output only after the observer has been started (the controller submits an
         # observer right after its subject has been staged, before the subject's task launches)
         sc["first_output"] = {"at": rng.choice([0.3, 1.0, 4.0, 9.0])}
@@ -119,6 +156,18 @@ def main():
         scs = [gen_scenario(rng) for _ in range(vlib.NPROC * per_child)]
         jobs = [{"K": K if not (thorough and rnd % 5 == 4) else 5.0, "scenarios": scs[i:i + per_child]}
                 for i in range(0, len(scs), per_child)]
+        # controller slice: a quarter of the children run observers through the real notification path
+        from rt import scenarios as _scn
+        for j in jobs[::4]:
+            ctl = []
+            for _ in range(6):
+                pair = _scn.gen_pair(rng, max_stages=2, max_comps=5, p_repeat=0.6, allow_replicate=False)
+                # producers succeed so that observers are expected to stop on their own
+                pair["script"] = _scn.gen_script(rng, __import__("rt.wfgen", fromlist=["x"]).expand(pair["wf"]), p_bad=0.15,
+                                                 allow_unrecoverable=False)
+                ctl.append({**pair, "pseed": rng.randrange(1 << 30), "jitter_p": rng.choice([0.0, 0.4]),
+                            "storm": rng.random() < 0.5})
+            j["scenarios"] = ctl
         vlib.fanout("checks.C13", jobs, c, timeout=1500)
         rnd += 1
         if c.violations or c.evaluations >= floor_runs or c.elapsed() > budget:
@@ -130,6 +179,7 @@ def main():
     c.floor("clause_b_checked", 40)
     c.floor("clause_c_checked", 60)
     c.floor("stopped_on_its_own", 60)
+    c.floor("ctl_clause_c_checked", 10)
     sys.exit(c.finish())
 
 
